@@ -30,7 +30,7 @@ def cmpLine (v : TVal) (ty : String) (c : String) : Option String :=
   | "u64" => c.toNat?.map fun x => bit (v.eqU64 x) ++ bit (v.eqU64 x) ++ bit (v.asU64 == some x)
   | "f64" => (parseHexNat c).map fun x =>
       bit (v.eqF64 x) ++ bit (v.eqF64 x) ++ bit (optF64Eq v.asFloat (some x))
-  | "str" => (parseHex c).map fun x => bit (v.eqStr x) ++ bit (v.eqStr x) ++ bit (v.asStr == some x)
+  | "str" => (parseStrTok c).map fun x => bit (v.eqStr x) ++ bit (v.eqStr x) ++ bit (v.asStr == some x)
   | _ => none
 
 def valuesStep (st : ValState) (ts : List String) : ValState × List String :=
@@ -71,7 +71,7 @@ def valuesStep (st : ValState) (ts : List String) : ValState × List String :=
     match pPrimFields rest with
     | some (fs, []) =>
       let r := capture (fs.map fun f => (f.1, f.2.map Prim.toRaw))
-      (st, ["st " ++ showEntries r])
+      (st, ["st " ++ showEntries r, "st " ++ showEntries r, "st " ++ showEntries r])
     | _ => (st, ["bad-op"])
   | ["cmp", v, ty, c] =>
     match parseVal v with
